@@ -267,6 +267,9 @@ func init() {
 		"verifSched": func(fr *frame, args []value) value {
 			fr.i.schedOn = true
 			fr.i.preempts = int(asInt64(args[0]))
+			if fr.i.race == nil && !fr.i.cfg.NoRaces {
+				fr.i.raceInit()
+			}
 			return nil
 		},
 		"verifYield": func(fr *frame, args []value) value {
